@@ -142,12 +142,13 @@ Print Assumptions C01_source_programs_unroll_to_their_expansion.
 
 (* one call, in any state that holds the definitions G and is expanding the gates of stk (the called gate not among them);
    `gcall n` follows calls of defined gates inside bodies to nesting depth n, instantiating each body in turn *)
-Theorem C01_one_gate_call check_only env G n f stk s name args vs bs out evs :
+Theorem C01_one_gate_call check_only env G n f stk s name args vs qs bss out evs :
   (n <= S f)%nat -> Regs env s -> gates s = G -> gstack s = stk -> cvals args = Some vs ->
-  gcall n env G stk name vs bs = Some (out, evs) ->
-  exists s', visit_stmt check_only [] (S (S f)) (SGate [] name args (map qarg_of bs)) s
+  mapM (opnd_bits (e_q env)) qs = Some bss -> distinctb [] (List.concat bss) = true ->
+  gcall n env G stk name vs (List.concat bss) = Some (out, evs) ->
+  exists s', visit_stmt check_only [] (S (S f)) (SGate [] name args qs) s
              = Ok ((if check_only then [] else out), s') /\ DE s s' /\ Dstep s s' evs.
-Proof. exact (gcall_fix check_only env G n f stk s name args vs bs out evs). Qed.
+Proof. exact (gcall_fix check_only env G n f stk s name args vs qs bss out evs). Qed.
 Print Assumptions C01_one_gate_call.
 
 From Coq Require Import ZArith.
